@@ -71,7 +71,7 @@ func der(r, s *big.Int, padR, padS bool) []byte {
 }
 
 // sigClass names how a signature slot deviates from a correct signature.
-var sigClasses = []string{"correct", "correct", "correct", "correct", "correct", "correct", "wrongmsg", "wrongkey", "empty", "highS", "padR", "padS", "truncated", "badtype", "forkmismatch", "onlytype", "garbage", "dermut", "dermut", "negR", "negS", "zeroS"}
+var sigClasses = []string{"correct", "correct", "correct", "correct", "correct", "correct", "wrongmsg", "wrongkey", "empty", "highS", "padR", "padS", "truncated", "badtype", "forkmismatch", "onlytype", "garbage", "dermut", "dermut", "negR", "negS", "zeroS", "longpad"}
 
 type recChecker struct {
 	codes map[byte][]byte // placeholder id -> script code handed to CheckSig
@@ -482,6 +482,12 @@ func SigScriptsFor(t *rapid.T, tx ref.Tx, idx int) SigProgram {
 			}
 			inner := append(append([]byte{0x02, byte(len(rB))}, rB...), append([]byte{0x02, byte(len(sB))}, sB...)...)
 			body = append([]byte{0x30, byte(len(inner))}, inner...)
+		case "longpad": // a valid encoding followed by excess bytes: the whole element is 75..77 / 255 / 256 bytes
+			body = der(r, sv, false, false)
+			target := rapid.SampledFrom([]int{75, 76, 76, 77, 80, 255, 256}).Draw(t, "longpad_len") - 1
+			for len(body) < target {
+				body = append(body, byte(0x11+len(body)))
+			}
 		case "zeroS":
 			rB := derInt(r, false)
 			inner := append(rB, 0x02, 0x00)
